@@ -1,6 +1,11 @@
 #!/bin/bash
-# Build everything the checks need, offline.
+# Build everything the checks need, offline: Lean library (all proofs), driver, extractor, harness.
 set -e
 cd "$(dirname "$0")/.."
 export GOFLAGS=-mod=mod GOPROXY=off GOSUMDB=off GOTOOLCHAIN=local
-(cd lean && lake build ShipVerif shipdrv 2>&1 | grep -v '^trace' | tail -5)
+mkdir -p bin work evidence replays
+(cd extract && go build -o ../bin/extract .)
+cp /repo/go.sum harness/go.sum
+(cd harness && go build -tags verif -o ../bin/harness .)
+(cd lean && lake build ShipVerif shipdrv 2>&1 | grep -v '^trace' | tail -15)
+test -x lean/.lake/build/bin/shipdrv
